@@ -80,8 +80,13 @@ func (f *Typecase) Call(s *slip.Scope, args slip.List, depth int) (result slip.O
 }
 
 func typecaseMatch(sym slip.Symbol, key slip.Object) bool {
-	if strings.EqualFold("null", string(sym)) && key == nil {
-		return true
+	if key == nil {
+		// nil is the empty list as well as a symbol.
+		switch strings.ToLower(string(sym)) {
+		case "null", "list", "sequence", "symbol", "atom", "t":
+			return true
+		}
+		return false
 	}
 	for _, h := range key.Hierarchy() {
 		if strings.EqualFold(string(h), string(sym)) {
